@@ -62,12 +62,22 @@ package wal
 //@ ensures forall(Int(x), x < old(alloc) ==> (FdOpen[x] == old(FdOpen)[x] && FdPath[x] == old(FdPath)[x]), trig(FdOpen[x]), trig(FdPath[x]))
 //@ ensures DskEx == old(DskEx) && DskData == old(DskData) && DskSync == old(DskSync)
 //
+// Read (C14): a log whose tail was cut in the middle of a record (a crash lost bytes written after
+// the last fsync) is read up to the last complete record and is not an error. ShortTail records that
+// a token read hit the end of the input early; such a read must not surface as an error of Read.
+// Thin: only this clause is claimed (the length field read from the file is not checked before
+// make([]byte, n); the thrift decoding is trusted).
+//@ ghost ShortTail Bool
 //@ func (*wal.WAL).Read -> es, err
 //@ props C14 C03
-//@ trusted reads the whole file and decodes the records (wal part of C11, not decided); no effect on the disk model
 //@ requires walOK(w)
-//@ assigns BufC, BufStore, BufOwned, RdData, RdPos
-//@ ensures walOK(w)
+//@ thin ^post|^loop
+//@ assigns writeset
+//@ ensures (!old(ShortTail) && ShortTail) ==> err == nil
+//@ after_call binary.Read#0: ghost ShortTail = ShortTail || result != nil
+//@ after_call binary.Read#1: ghost ShortTail = ShortTail || result != nil
+//@ loop 0:
+//@   invariant ShortTail == old(ShortTail)
 //
 //@ func wal.ParseVersion -> r
 //@ trusted string manipulation of a file name (strings.Split/TrimSuffix/fmt.Sprintf); no heap effect; result unconstrained here (its order is C02's business, D9)
@@ -79,7 +89,7 @@ package wal
 // (fewer than two '-'-separated parts) the function panics; its callers pass ParseVersion results
 //@ func wal.CompareVersion -> r
 //@ props C03 C14
-//@ thin ^post
+//@ thin ^post|^loop
 //@ assigns nothing
 //@ ensures forall(Str(a1), Int(n1), Str(a2), Int(n2), (v1 == wver(a1, n1) && v2 == wver(a2, n2) && noDash(a1) && noDash(a2) && 0 <= n1 && n1 <= 999999999 && 0 <= n2 && n2 <= 999999999) ==> (((r < 0) == (a1 < a2 || (a1 == a2 && n1 < n2))) && ((r > 0) == (a1 > a2 || (a1 == a2 && n1 > n2)))), trig(wver(a1, n1), wver(a2, n2)))
 //@ func (*wal.WAL).Version -> r
